@@ -28,19 +28,20 @@ type Expect struct {
 	Full    bool `json:"full,omitempty"`    // terminal consumes everything
 	HasFail bool `json:"hasfail,omitempty"` // some element may fail
 	// C08
-	Drop   bool   `json:"drop,omitempty"`
-	Need   int    `json:"need,omitempty"` // index of the last source element the consumer needs
-	Dec    int    `json:"dec,omitempty"`  // index of the decisive source element (without any read-ahead)
-	HasDec bool   `json:"hasdec,omitempty"`
-	Need2  int    `json:"need2,omitempty"` // same for the lazy second operand of cross/merge/+ (probe stage 15); -1 = none at all
-	Has2   bool   `json:"has2,omitempty"`
-	Merge  bool   `json:"merge,omitempty"`  // the pipeline contains merge: its channel producers keep iterating after an early stop (known)
-	S      int    `json:"s,omitempty"`      // lazy stages + 1
-	ParSt  int    `json:"parst,omitempty"`  // stages that may go parallel
-	FailAt int    `json:"failat,omitempty"` // source index of the failing element + 1 (0 = none)
-	Fair   bool   `json:"fair,omitempty"`   // uniform costs, no stalls, no PCT
-	Huge   bool   `json:"huge,omitempty"`   // source >= 1e9 elements
-	Term   string `json:"term,omitempty"`
+	Drop     bool   `json:"drop,omitempty"`
+	Need     int    `json:"need,omitempty"` // index of the last source element the consumer needs
+	Dec      int    `json:"dec,omitempty"`  // index of the decisive source element (without any read-ahead)
+	HasDec   bool   `json:"hasdec,omitempty"`
+	SparseAt int    `json:"sparseat,omitempty"` // an upstream accept passes only values <= SparseAt
+	Need2    int    `json:"need2,omitempty"`    // same for the lazy second operand of cross/merge/+ (probe stage 15); -1 = none at all
+	Has2     bool   `json:"has2,omitempty"`
+	Merge    bool   `json:"merge,omitempty"`  // the pipeline contains merge: its channel producers keep iterating after an early stop (known)
+	S        int    `json:"s,omitempty"`      // lazy stages + 1
+	ParSt    int    `json:"parst,omitempty"`  // stages that may go parallel
+	FailAt   int    `json:"failat,omitempty"` // source index of the failing element + 1 (0 = none)
+	Fair     bool   `json:"fair,omitempty"`   // uniform costs, no stalls, no PCT
+	Huge     bool   `json:"huge,omitempty"`   // source >= 1e9 elements
+	Term     string `json:"term,omitempty"`
 }
 
 type Case struct {
@@ -311,6 +312,9 @@ func execC04(c *Case, sc *Script, o *Obs) {
 			if c.X.Bound && oc.Y1-oc.Y0 > bound {
 				o.add(name, "C04:superlinear", fmt.Sprintf("%d yields for %d bytes (bound %d)", oc.Y1-oc.Y0, n, bound))
 			}
+			if ab := uint64(4<<20) + uint64(20<<10)*uint64(n); c.X.Bound && oc.Alloc > ab {
+				o.add(name, "C04:superlinear-alloc", fmt.Sprintf("%d MiB allocated while generating from %d input bytes (bound %d MiB): work that the yield counter cannot see (standard library)", oc.Alloc>>20, n, ab>>20))
+			}
 			if oc.Ok {
 				classes = append(classes, "ok")
 			} else {
@@ -333,6 +337,9 @@ func execC04(c *Case, sc *Script, o *Obs) {
 
 func judgeLeftover(prop, name string, r *RunOut, huge bool, o *Obs) {
 	res := r.Res
+	for _, g := range r.Unmanaged {
+		o.add(name, prop+":unmanaged-goroutine:"+g.Fn, fmt.Sprintf("goroutine %s [%s] entered the library at %s and is parked in %s after the call returned and all scheduled tasks were gone (a goroutine obtained without a go statement: coroutine/timer)", g.ID, g.State, g.Fn, g.Top))
+	}
 	if !res.RootDone {
 		o.tag("aborted:" + res.End)
 		return
@@ -403,20 +410,29 @@ func execC06(c *Case, sc *Script, o *Obs) {
 	b := Budgets{MaxYields: 80_000_000, GraceYields: 20_000_000, GraceTime: int64(time.Hour)}
 	refSc := *sc
 	refSc.Host.Costs = nil
-	var ref *RunOut
-	if !c.Sim.UseDecs || true {
-		ref = runScript(&refSc, canonicalSim(1), b)
-		o.absorb(ref)
-		if ref.Races > 0 {
-			raceVerdicts("C06", "ref", o)
+	// The runs under judgement come first and the sequential reference last: package-level
+	// state of the library (caches, registries) survives from run to run inside this process,
+	// and a sequential first run would initialise it before any concurrent run could race on it.
+	type pending struct {
+		name string
+		r    *RunOut
+	}
+	var runs []pending
+	collect := func(name string, r *RunOut) {
+		if r.Races > 0 {
+			raceVerdicts("C06", name, o)
 		}
+		runs = append(runs, pending{name, r})
+	}
+	_, test := twoRuns(c, sc, b, o, collect)
+	ref := runScript(&refSc, canonicalSim(1), b)
+	o.absorb(ref)
+	if ref.Races > 0 {
+		raceVerdicts("C06", "ref", o)
 	}
 	refOut := clientOutcome(ref)
 	judge := func(name string, r *RunOut) {
 		res := r.Res
-		if r.Races > 0 {
-			raceVerdicts("C06", name, o)
-		}
 		switch res.End {
 		case "deadlock":
 			o.add(name, "C06:deadlock", fmt.Sprintf("%+v", res.Leftover))
@@ -447,7 +463,13 @@ func execC06(c *Case, sc *Script, o *Obs) {
 			}
 		}
 	}
-	_, test := twoRuns(c, sc, b, o, judge)
+	for _, p := range runs {
+		judge(p.name, p.r)
+	}
+	// the replay decisions belong to the run under test; verdicts may have been added after finishTest
+	if len(o.Verdicts) > 0 {
+		o.Decisions = test.Res.Decisions
+	}
 	o.Outcome = clientOutcome(test).class()
 	for _, t := range o.Tags {
 		if t == "parallel" || t == "tochan" || t == "multiuse" {
@@ -549,7 +571,9 @@ func execC08(c *Case, sc *Script, o *Obs) {
 			return
 		}
 		if !res.RootDone && !strings.HasPrefix(res.End, "aborted:") {
-			if par && !x.Fair {
+			if par && x.SparseAt > 0 {
+				o.add(name, "C08:demand-unbounded:parallel:stop-needs-next-item", "evaluation did not finish within the yield budget: "+res.End)
+			} else if par && !x.Fair {
 				o.add(name, unboundedSig, "evaluation did not finish within the yield budget: "+res.End)
 			} else {
 				o.add(name, "C08:not-prompt:"+mode+":"+x.Term, fmt.Sprintf("no result within %d yields (decisive element %d)", b.MaxYields, x.Need))
@@ -567,6 +591,11 @@ func execC08(c *Case, sc *Script, o *Obs) {
 			bound = int64(x.Need) + parWindow
 		}
 		mergeSig := "C08:demand-unbounded:merge:producers-keep-iterating"
+		sparseSig := "C08:demand-unbounded:parallel:stop-needs-next-item"
+		if maxP > bound && par && x.SparseAt > 0 {
+			o.add(name, sparseSig, fmt.Sprintf("closure evaluated for source element %d although the consumer was decided by element %d (bound %d): a parallel stage behind a filter that passes nothing after value %d only notices the stop when its source delivers another item", maxP, x.Need, bound, x.SparseAt))
+			maxP = -1 // reported
+		}
 		if maxP > bound && x.Merge && !(par && !x.Fair) {
 			o.add(name, mergeSig, fmt.Sprintf("closure evaluated for source element %d although the consumer behind merge was decided by element %d (bound %d): the channel producers of merge keep iterating after the consumer stopped", maxP, x.Need, bound))
 		} else if maxP > bound {
